@@ -29,6 +29,11 @@ def run(ctx):
     isolation(ctx, f, cfg)
     hotspot(ctx, f, cfg)
     pairing(ctx, f, cfg)
+    extraction(ctx, f, cfg)
+    # "capacity freed by an exit is usable by the very next request": the isolation cap reads the node's in-flight counter, which
+    # the completion recorder must lower on every exit of a passed entry (C04's recorder rule, re-evaluated here)
+    from . import rules_C04
+    rules_C04.recorder(ctx, f, cfg)
 
 
 def _family_bodies(f, mod):
@@ -314,3 +319,55 @@ def _guards(f, b, bb):
                     elif any_atom(at, "field:ParamsMetric.concurrency_counter") and "discr" in at:
                         out.append("counter lookup is #%s" % v)
     return out
+
+
+def extraction(ctx, f, cfg):
+    """C05.hs-extract: which argument a hotspot rule looks at.  Positional: args[param_index], a negative index counts from the end
+    (param_index + len, added once), anything outside 0..len means "parameter missing" (None).  Keyed: attachments[param_key.trim()]
+    when present; the keyed lookup has priority over the positional one."""
+    from .relfacts import RelFacts
+    lst = f.find("hotspot::traffic_shaping::Controller::<C>::extract_list_args")
+    if not lst:
+        lst = [b for p, b in f.bodies.items() if "hotspot::traffic_shaping::Controller" in p and any(callee_def(t).endswith("SentinelInput::args") for _, t in b.calls())]
+    if not ctx.floor("C05.hs-extract", "hotspot positional argument extractor (reads SentinelInput::args)", len(lst), 1):
+        return
+    b = lst[0]
+    sl = Slicer(f, b)
+    rel = RelFacts(f)
+    sites = [(bb, t) for bb, t in b.calls() if callee_def(t).endswith("Index::index") and "Vec<" in (t.get("arg_tys") or [""])[0]]
+    ok = bool(sites)
+    detail = {}
+    for bb, t in sites:
+        at = sl.of_operand(t["args"][1])
+        ops = sorted(a for a in at if a.startswith("op:"))
+        calls = sorted(a.rsplit("::", 1)[-1] for a in at if a.startswith("call:") and not a.endswith(("::len", "::deref", "::args", "::input", "::as_ref", "::unwrap")))
+        bounds = rel.index_ok(b, bb, t["args"][0], t["args"][1])
+        arith_ok = set(ops) <= {"op:Add", "op:Lt"} and not [c for c in calls if c in ("rem_euclid", "abs", "wrapping_add", "wrapping_sub", "checked_rem", "min", "max", "clamp", "unsigned_abs")] and any_atom(at, "field:Rule.param_index")
+        from_end = "op:Add" in ops and any(a.endswith("::len") for a in at if a.startswith("call:"))
+        detail = {"index_ops": ops, "other_calls": calls, "bounds": bounds, "negative_counts_from_end": from_end}
+        ok = ok and arith_ok and bool(bounds) and from_end
+    ctx.instance("C05.hs-extract/positional", b.path, detail, "args[param_index] or args[param_index + len], guarded by 0 <= idx < len; otherwise None", ok, cfg)
+    if not ok:
+        ctx.violation("C05.hs-extract", "C05.hs-extract|positional", "the positional parameter is not args[param_index] / args[param_index + len] within 0..len (a missing parameter must yield None): %s" % detail, b.loc(), config=cfg)
+    kv = f.find("hotspot::traffic_shaping::Controller::<C>::extract_kv_args")
+    if not kv:
+        kv = [x for p, x in f.bodies.items() if "hotspot::traffic_shaping::Controller" in p and any(callee_def(t).endswith("SentinelInput::attachments") for _, t in x.calls())]
+    if kv:
+        k = kv[0]
+        s2 = Slicer(f, k)
+        idx = [(bb, t) for bb, t in k.calls() if callee_def(t).endswith("Index::index") and "HashMap<" in (t.get("arg_tys") or [""])[0]]
+        okk = bool(idx)
+        for bb, t in idx:
+            ka = s2.of_operand(t["args"][1])
+            okk = okk and any_atom(ka, "field:Rule.param_key")
+        ctx.instance("C05.hs-extract/keyed", k.path, {"lookups": len(idx)}, "attachments[rule.param_key] (guarded by contains_key: C12)", okk, cfg)
+        if not okk:
+            ctx.violation("C05.hs-extract", "C05.hs-extract|keyed", "the keyed parameter is not looked up by the rule's param_key", k.loc(), config=cfg)
+    ea = f.find("hotspot::traffic_shaping::Controller::<C>::extract_args")
+    if ea:
+        e = ea[0]
+        order = [callee_def(t).rsplit("::", 1)[-1] for bb, t in sorted(e.calls(), key=lambda x: len(e.find_path([0], [x[0]]) or [])) if callee_def(t).rsplit("::", 1)[-1] in ("extract_kv_args", "extract_list_args")]
+        oko = order[:2] == ["extract_kv_args", "extract_list_args"]
+        ctx.instance("C05.hs-extract/priority", e.path, order, ["extract_kv_args", "extract_list_args"], oko, cfg)
+        if not oko:
+            ctx.violation("C05.hs-extract", "C05.hs-extract|priority", "keyed parameters no longer take priority over positional ones: %s" % order, e.loc(), config=cfg)
